@@ -87,6 +87,17 @@ func stimulus(name string, r *rand.Rand) []byte {
 		return wire.Notification(4, 0, nil)
 	case "notif-short":
 		return wire.Header(3, []byte{6})
+	case "notif-shutdown255":
+		// RFC 9003: Cease / Administrative Shutdown with the longest legal Shutdown Communication
+		d := make([]byte, 256)
+		d[0] = 255
+		for i := 1; i < 256; i++ {
+			d[i] = byte('a' + i%26)
+		}
+		return wire.Notification(6, 2, d)
+	case "notif-shutdown-short":
+		// a length octet that promises more than is there
+		return wire.Notification(6, 4, []byte{200, 'x', 'y'})
 	case "badmarker":
 		b := wire.Keepalive()
 		b[r.Intn(16)] = 0xfe
@@ -122,6 +133,9 @@ func scenStateMsg(e *Env, args []string, r *rand.Rand) {
 	if b := atoi(m["busy"], 0); b > 0 {
 		p.plugin.OpenDelay = time.Duration(b) * time.Millisecond
 		p.plugin.HandlerDelay = time.Duration(b) * time.Millisecond
+	}
+	if d := atoi(m["slowlog"], 0); d > 0 {
+		e.logDelay = time.Duration(d) * time.Millisecond
 	}
 	e.serve()
 	if m["second"] == "1" {
@@ -347,7 +361,8 @@ func scenUpdates(e *Env, args []string, r *rand.Rand) {
 	m := argMap(args)
 	n := atoi(m["n"], 20)
 	veto := atoi(m["veto"], 0)
-	p := e.addPeer(1, PeerOpts{LocalAS: localAS, RemoteAS: remoteAS, Hold: 90, Passive: dir == "in", IdleHold: 5 * time.Second})
+	lhold := uint16(atoi(m["hold"], 90))
+	p := e.addPeer(1, PeerOpts{LocalAS: localAS, RemoteAS: remoteAS, Hold: lhold, Passive: dir == "in", IdleHold: 5 * time.Second})
 	if veto > 0 {
 		p.plugin.HandlerVeto = veto
 		p.plugin.VetoNotif = &bgp.Notification{Code: 3, Subcode: 9, Data: []byte{7}}
@@ -462,7 +477,7 @@ func init() {
 		var out []string
 		for _, dir := range []string{"out", "in"} {
 			for _, st := range []string{"openSent", "openConfirm", "established"} {
-				for _, s := range []string{"open", "update", "ka", "notif-cease", "notif-other", "notif-hold", "notif-short", "fin", "fin-midheader", "fin-midbody", "rst"} {
+				for _, s := range []string{"open", "update", "ka", "notif-cease", "notif-other", "notif-hold", "notif-short", "notif-shutdown255", "notif-shutdown-short", "fin", "fin-midheader", "fin-midbody", "rst"} {
 					out = append(out, fmt.Sprintf("state-msg:%s:%s:%s", dir, st, s))
 				}
 				if dir == "out" {
@@ -493,6 +508,10 @@ func init() {
 					fmt.Sprintf("state-msg:%s:estrace:open:fin=1:busy=3:i=%d", dir, i))
 			}
 			out = append(out, fmt.Sprintf("state-msg:%s:openConfirm:update:fin=1", dir), fmt.Sprintf("state-msg:%s:established:open:fin=1", dir))
+			// an unexpected message pipelined behind the message that causes the transition, while the Logger is slow:
+			// the subcode names the state the FSM is in, not the one the manager has recorded so far
+			out = append(out, fmt.Sprintf("state-msg:%s:openSent:open:trail=2:slowlog=25", dir), fmt.Sprintf("state-msg:%s:estrace:open:slowlog=25", dir),
+				fmt.Sprintf("state-msg:%s:openSent:ka:slowlog=25", dir))
 		}
 		// the stimulus travels directly behind the KEEPALIVE that establishes the session
 		for _, dir := range []string{"out", "in"} {
@@ -560,6 +579,8 @@ func init() {
 				fmt.Sprintf("updates:%s:n=%d:end=badhdr:slow=%d:k=b%d", dir, 10+r.Intn(30), 100+r.Intn(400), i))
 		}
 		out = append(out, "updates:out:n=6:pause=1300:k=p0", "updates:in:n=6:pause=1300:k=p1")
+		// negotiated hold time 0 (no hold timer); a handler slower than it is polite to be
+		out = append(out, "updates:out:n=12:hold=0:k=h0", "updates:in:n=12:hold=0:end=fin:k=h1", "updates:out:n=5:slow=300000:hold=3:k=h2")
 		return out
 	}
 }
